@@ -163,7 +163,7 @@ SPEC_NEXT = r"""
                                         else { r is Ok },
                     _ => r is Err && at(r->Err_0, lhs.1) && inner(r->Err_0) is PropAccessOnNonObject,
                 },
-            } }), // [C12_C16:property_write_follows_the_same_rules_as_string_index_write_and_a_non_object_target_is_an_error]
+            } }), // [C12_C16_C20:property_write_follows_the_same_rules_as_string_index_write_a_type_property_is_not_a_bind_target_and_a_non_object_target_is_an_error]
         // ---- C18: "the position attached ... to an operator type/overflow error [is] that of the operator", also for `x[i] op= v` / `o.k op= v`
         lhs.0 matches RawExpr::Index{expr, location} ==> (match sem_expr(old(scopes).world(), *expr).0 {
             Err(_) => true,
@@ -201,7 +201,7 @@ SPEC_NEXT = r"""
 SPEC_BOA = r"""
     ensures
         (r is Ok) == (slot_after(*old(lhs), rhs, op) is Some), // [C06_C12_C16:op_assign_on_an_element_or_property_fails_exactly_when_the_operator_fails]
-        r is Ok ==> *final(lhs) == slot_after(*old(lhs), rhs, op)->0, // [C06_C12_C16:op_assign_on_an_element_or_property_stores_old_value_op_rhs_and_plain_assign_stores_rhs]
+        r is Ok ==> *final(lhs) == slot_after(*old(lhs), rhs, op)->0, // [C06_C12_C14_C16:op_assign_on_an_element_or_property_stores_old_value_op_rhs_and_plain_assign_stores_rhs_with_its_provenance]
         r is Err ==> *final(lhs) == *old(lhs), // [C06:failed_operator_leaves_the_slot_unchanged]
         shows_op_position(r, *old(lhs), rhs, op), // [C18:a_failing_op_assign_shows_the_position_of_the_operator_first]
         r matches Err(e) ==> located(e), // [C17:binding_errors_are_located]
